@@ -329,6 +329,16 @@ pub fn builder_seeds(seed: u64) -> Vec<Seed> {
     for (n, info) in [(1usize, false), (7, true), (30, true)] {
         push("PatchArchive", &format!("pa-n{n}-info{info}"), patch_archive_builder(&mut rng, n, info).build().ok());
     }
+    // blocks that are filled exactly / almost / just over (a single-patch entry serialises to 64 bytes:
+    // 64 of them fill a 4 KiB block), one, two and three blocks
+    for n in [63usize, 64, 65, 128, 129, 192] {
+        let mut b = PatchArchiveBuilder::new().block_size_bits(12);
+        for _ in 0..n {
+            b.add_file_entry(rng.array::<16>(), rng.below(1 << 40), vec![(rng.array::<16>(), rng.below(1 << 40), rng.array::<16>(), rng.next_u32(), 1)]);
+        }
+        b.sort_entries();
+        push("PatchArchive", &format!("pa-bits12-single-patch-n{n}"), b.build().ok());
+    }
     for n in [1usize, 12] {
         push("PatchIndex", &format!("pi-n{n}"), patch_index_bytes(&mut rng, n));
     }
@@ -376,7 +386,7 @@ pub fn builder_seeds(seed: u64) -> Vec<Seed> {
     let product = r#"{"all":{"config":{"data_dir":"Data/","display_locales":["enUS","deDE"],"enable_block_copy_patch":true,"product":"wow","supported_locales":["enUS","deDE","frFR"],"supports_multibox":false,"update_method":"ngdp"}},"platform":{"win":{"config":{"binaries":{"game":{"relative_path":"Wow.exe"}}}}}}"#;
     push("ProductConfig", "product-config", Some(product.as_bytes().to_vec()));
     push("ProductConfig", "product-config-min", Some(br#"{"all":{"config":{}}}"#.to_vec()));
-    for (i, s) in ["n", "z", "z:9", "z:{6,mpq}", "b:{256K*=z}", "b:{22=n,1K*3=z:{9,15},*=n}", "e:{0123456789abcdef,06fc152e,z}", "b:{16K*=e:{237DA26C65073F42,11223344,z},*=n}"].iter().enumerate() {
+    for (i, s) in ["n", "z", "z:9", "z:{6,mpq}", "b:{256K*=z}", "b:{22=n,1K*3=z:{9,15},*=n}", "e:{0123456789abcdef,06fc152e,z}", "b:{16K*=e:{237DA26C65073F42,11223344,z},*=n}", "b:{0*2=z,*=n}", "b:{0*3=n,0*1=z:{6,mpq},*=n}", "b:{1*1=n,0=z,*=n}", "b:{4K*2=z,8K*=n}"].iter().enumerate() {
         push("ESpec", &format!("espec-{i}"), Some(s.as_bytes().to_vec()));
     }
     v
